@@ -1,6 +1,7 @@
 package sim
 
 import (
+	"bytes"
 	"fmt"
 
 	"github.com/RoaringBitmap/roaring"
@@ -70,6 +71,7 @@ func runDMTCase(c *Case, env *Env) *Result {
 	ws := w.Segs[dc.Seg%len(w.Segs)]
 	exp := ws.Exp()
 	names := append(append([]string(nil), ws.Fields...), model.UnknownField, "")
+	pool := termPool(ws)
 	for li, list := range dc.Lists {
 		var terms []segment.Term
 		want := map[uint32]bool{}
@@ -79,17 +81,27 @@ func runDMTCase(c *Case, env *Env) *Result {
 		for i, dt := range list {
 			field := names[dt.Field%len(names)]
 			all := exp.Dicts[field]
-			term := []byte("absent-term")
+			var term []byte
 			if !dt.Absent && len(all) > 0 {
-				to := all[dt.Term%len(all)]
-				term = to.Term
-				for _, p := range to.Posts {
-					want[uint32(p.Doc)] = true
-				}
-				if ws.Kind == model.Merged && len(to.Posts) == 1 && to.Posts[0].Freq == 1 && len(to.Posts[0].Locs) == 0 {
-					onehit++
-				}
+				term = all[dt.Term%len(all)].Term
 			} else {
+				// a term text that exists somewhere in the segment (usually in
+				// another field), or one that exists nowhere
+				term = pool[dt.Term%len(pool)]
+			}
+			found := false
+			for _, to := range all {
+				if bytes.Equal(to.Term, term) {
+					found = true
+					for _, p := range to.Posts {
+						want[uint32(p.Doc)] = true
+					}
+					if ws.Kind == model.Merged && len(to.Posts) == 1 && to.Posts[0].Freq == 1 && len(to.Posts[0].Locs) == 0 {
+						onehit++
+					}
+				}
+			}
+			if !found {
 				absent++
 			}
 			if field == model.UnknownField || field == "" {
@@ -147,4 +159,22 @@ func head(a []uint32, n int) []uint32 {
 		return a[:n]
 	}
 	return a
+}
+
+// termPool: every term text occurring anywhere in the segment, plus one that
+// occurs nowhere. Lookups of "absent" terms draw from it, so that the text
+// usually exists in some other field.
+func termPool(ws *WSeg) [][]byte {
+	seen := map[string]bool{}
+	var pool [][]byte
+	exp := ws.Exp()
+	for _, f := range exp.Fields {
+		for _, to := range exp.Dicts[f] {
+			if !seen[string(to.Term)] {
+				seen[string(to.Term)] = true
+				pool = append(pool, to.Term)
+			}
+		}
+	}
+	return append(pool, []byte("absent-term"))
 }
